@@ -294,12 +294,14 @@ def depTree (fuel : Nat) (st : State T V) (dt : T) : Option (State T V) :=
 def statsPhase (fuel : Nat) (st : State T V) (ta tb : T) : Option (State T V) :=
   if st.dt.isNone && !c.halfway then
     let n := st.numEval + 1
+    -- the running average covers the warm-up queries too (`_WARMUP = 100`); it is only acted upon once the warm-up is over,
+    -- and the tree is then refined to the AVERAGE query length (not to the length of the current query)
+    let d := a.sub tb ta
+    let av := a.avg d st.avgDt (n + 100)
+    let st' := { st with numEval := n, avgDt := av }
     if n > 0 then
-      let d := a.sub tb ta
-      let av := a.avg d st.avgDt n
-      let st' := { st with numEval := n, avgDt := av }
-      if a.below av st'.treeDt then depTree c a fuel st' d else some st'
-    else some { st with numEval := n }
+      if a.below av st'.treeDt then depTree c a fuel st' av else some st'
+    else some st'
   else some st
 
 /-- result of a query: `(W, H-or-zero, U)` -/
